@@ -226,7 +226,7 @@ K({
     "title": "coherence_priorities: CoherenceSolver::set_priorities, SpecializationPriorities::{insert, priority} on real petgraph forests",
     "crate": "chalk-solve",
     "complete": False,
-    "bound": {"quick": "every labelled DAG on <= 3 impls (29 graphs, exhaustive below the bound)", "thorough": "+ three 4-impl DAGs (two sampled, the diamond with a shortcut)"},
+    "bound": {"quick": "every labelled DAG on <= 3 impls (29 graphs, exhaustive below the bound)", "thorough": "+ two sampled 4-impl DAGs with a node of in-degree >= 2"},
     "mods": [{"into": COH, "harness": "chalk_solve/k13_coherence.rs", "name": "verif_k13"}],
     "targets": [
         {"file": COH, "fn": "set_priorities", "path": "CoherenceSolver::set_priorities",
